@@ -29,6 +29,19 @@ def generate(rng, tier):
     env = gen.gen_env(rng)
     flat = rng.random() < 0.25
     tree = gen.gen_tree(rng, max_entries=9, max_depth=0 if flat else 3, hostile=0.1, min_files=1)
+    twin = None
+    if rng.random() < 0.1:
+        # an entry whose name has two canonically equivalent spellings; renaming it to the other one is a rename
+        parent = rng.choice([""] + gen.tree_dirs(tree))
+        nfc, nfd = rng.choice([("caf\u00e9.mov", "cafe\u0301.mov"), ("\u00fcber", "u\u0308ber"), ("\ud55c.txt", "\u1112\u1161\u11ab.txt")])
+        a, b = (nfc, nfd) if rng.random() < 0.5 else (nfd, nfc)
+        rel = (parent + "/" if parent else "") + a
+        if "." in a:
+            tree[rel] = {"t": "f", "c": gen.unique_content(rng)}
+        else:
+            tree[rel] = {"t": "d"}
+            tree[rel + "/in.bin"] = {"t": "f", "c": gen.unique_content(rng)}
+        twin = (rel, (parent + "/" if parent else "") + b)
     pat_args = []
     if rng.random() < 0.25:
         pat = rng.choice(["*.bak", "notes", "cache/", "tmp*"])
@@ -70,7 +83,9 @@ def generate(rng, tier):
     dirs = [d for d in gen.tree_dirs(tree) if not (pat_args and os.path.basename(d) == "cache")]
     mut = None
     k = rng.random()
-    if k < 0.85:
+    if twin and rng.random() < 0.7:
+        mut = {"op": "rename", "src": twin[0], "dst": twin[1], "fault": "rename_to_other_unicode_normal_form"}
+    elif k < 0.85:
         kind = rng.choice(["content", "rename", "add_file", "remove_file", "add_dir", "rename_dir", "rmdir"])
         if kind == "content" and files:
             f = rng.choice(files)
